@@ -107,6 +107,7 @@ def gen_case(rng):
     base.update({'opts': opts, 'copy': rng.random() < 0.5, 'hseed': rng.getrandbits(32)})
     # history: the same --copy name asked for again (re-run of the command, or a second tuning of the copy) with a filter that would remove something
     base['symlinked'] = rng.random() < 0.3
+    base['cwd_decoy'] = rng.random() < 0.3
     if rng.random() < 0.2:
         base['stray_backup'] = rng.choice(['.bak', '.bak', '.orig', '~', '.old'])
     if rng.random() < 0.5:
@@ -142,6 +143,17 @@ def check_case(run, case, use_cli=False):
         g0 = os.path.join(path, 'Grammar', 'grammar.txt')
         os.replace(g0, shared)
         os.symlink(shared, g0)
+    decoy = None
+    if use_cli and case.get('cwd_decoy'):
+        # the directory the tool is started from holds a folder with the name of the ruleset (an older copy of it, kept outside Rules/): `--rule NAME` means
+        # Rules/NAME
+        decoy = os.path.join(repo.scratch(), name)
+        if not os.path.exists(decoy):
+            shutil.copytree(path, decoy)
+            with open(os.path.join(decoy, 'Grammar', 'grammar.txt'), 'ab') as f_:
+                f_.write(b'K4K4K4\t0.001\n')
+        else:
+            decoy = None
     if case.get('stray_backup'):
         # the user's own safety copy of an older state of the list, kept beside it under a usual name: another file of the ruleset, nothing the tool owns
         g_ = os.path.join(path, 'Grammar', 'grammar.txt')
@@ -315,6 +327,8 @@ def check_case(run, case, use_cli=False):
         repo.drop_rules(copyname)
         if shared and os.path.exists(shared):
             os.remove(shared)
+        if decoy and os.path.isdir(decoy):
+            shutil.rmtree(decoy, ignore_errors=True)
 
 def run(run, rng):
     run.required_events = ['edits', 'lists_compared', 'guess_length_checks', 'audit_events', 'cli_runs', 'copy_exists_runs']
